@@ -522,10 +522,12 @@ Section Sound.
       unfold elems_ok in *. cbn. destruct Hc as [Hc1 Hc2]. rewrite Hc2, Hc1, ty_eqb_refl. exact IH.
     Qed.
 
-    Lemma assignable_elem_ok elt ta : scalar elt = true -> assignable elt ta = true -> elem_ok elt ta = true.
+    Lemma assignable_elem_ok elt ta : scalar elt = true -> aset_ok elt ta = true -> elem_ok elt ta = true.
     Proof.
-      intros Sc A. unfold assignable in A. apply orb_true_iff in A. destruct A as [A|A].
-      - apply ty_eqb_eq in A. subst ta. destruct elt; cbn in *; try discriminate; reflexivity.
+      intros Sc A. unfold aset_ok in A. apply orb_true_iff in A. destruct A as [A|A].
+      - unfold assignable in A. apply orb_true_iff in A. destruct A as [A|A].
+        + apply ty_eqb_eq in A. subst ta. destruct elt; cbn in *; try discriminate; reflexivity.
+        + destruct elt; try discriminate. destruct ta; try discriminate. reflexivity.
       - destruct elt; try discriminate. destruct ta; try discriminate. reflexivity.
     Qed.
 
@@ -630,7 +632,7 @@ Section Sound.
         destruct fin; [discriminate|].
         destruct (type_expr sigs G i) as [ti|] eqn:Ti; [|discriminate].
         destruct (type_expr sigs G e) as [ta|] eqn:Ta; [|discriminate].
-        destruct (integral ti && assignable t ta) eqn:B; [|discriminate]. inversion C; subst.
+        destruct (integral ti && aset_ok t ta) eqn:B; [|discriminate]. inversion C; subst.
         apply andb_true_iff in B. destruct B as [It A].
         cbn [exec_step].
         destruct (lookup_var G' s x _ false S L) as [arr [Hl Harr]]. rewrite (read_found x arr s Hl). cbn [bind].
